@@ -23,9 +23,9 @@ import (
 
 // toolInput is the upstream file of one language.
 type toolInput struct {
-	Lines    []string `json:"lines"`              // the file is Lines joined by \n
-	Trailing bool     `json:"trailing_newline"`   // ... plus a final \n
-	Missing  bool     `json:"missing,omitempty"`  // fault run: the upstream has no such file (no verdict)
+	Lines    []string `json:"lines"`             // the file is Lines joined by \n
+	Trailing bool     `json:"trailing_newline"`  // ... plus a final \n
+	Missing  bool     `json:"missing,omitempty"` // fault run: the upstream has no such file (no verdict)
 }
 
 func (t *toolInput) bytes() []byte {
@@ -47,9 +47,10 @@ func (t *toolInput) expected() []string {
 }
 
 type toolPlan struct {
-	Inputs    map[string]*toolInput `json:"inputs"`    // by upstream file name (english, ...)
-	Prestate  map[string]string     `json:"prestate"`  // absent | longer | shorter | junk | readonly
+	Inputs    map[string]*toolInput `json:"inputs"`   // by upstream file name (english, ...)
+	Prestate  map[string]string     `json:"prestate"` // absent | longer | shorter | junk | readonly
 	OrderSeed uint64                `json:"order_seed"`
+	FragSeed  uint64                `json:"frag_seed,omitempty"` // != 0: response bodies arrive in seeded short reads, the last one possibly with io.EOF
 	Canonical bool                  `json:"canonical,omitempty"`
 	NoDir     bool                  `json:"no_dir,omitempty"` // fault run: target directory missing (no verdict)
 }
@@ -214,7 +215,12 @@ func (g *c17Engine) run(tp *toolPlan) (*toolVerdict, map[string]int, error) {
 			os.WriteFile(tgt, prestateContent(kind), 0644)
 		}
 	}
-	p := g.e.RunProc(60*time.Second, []string{"BIP39_VERIF_UPSTREAM=" + filepath.Join(d, "up"), "ZZSIM_ORDER_SEED=" + strconv.FormatUint(tp.OrderSeed, 10)}, work, g.bin)
+	env := []string{"BIP39_VERIF_UPSTREAM=" + filepath.Join(d, "up"), "ZZSIM_ORDER_SEED=" + strconv.FormatUint(tp.OrderSeed, 10)}
+	if tp.FragSeed != 0 {
+		env = append(env, "BIP39_VERIF_FRAG="+strconv.FormatUint(tp.FragSeed, 10))
+		stats["runs_with_fragmented_bodies"]++
+	}
+	p := g.e.RunProc(120*time.Second, env, work, g.bin)
 	if tp.faultRun() {
 		stats["fault_runs_no_verdict"]++
 		if p.Exit != 0 {
@@ -223,7 +229,7 @@ func (g *c17Engine) run(tp *toolPlan) (*toolVerdict, map[string]int, error) {
 		return nil, stats, nil
 	}
 	if p.TimedOut {
-		return &toolVerdict{Class: "hang", Key: "hang", Detail: "the tool did not finish within 60 s"}, stats, nil
+		return &toolVerdict{Class: "hang", Key: "hang", Detail: "the tool did not finish within 120 s"}, stats, nil
 	}
 	if p.Exit != 0 {
 		return &toolVerdict{Class: "exit", Key: "exit", Detail: fmt.Sprintf("the tool failed (exit %d) on delivered upstream files: %s", p.Exit, tail(p.Stderr, 4))}, stats, nil
@@ -434,10 +440,13 @@ func genWord(r *plan.Rand, a *alphabet) string {
 	return string(b)
 }
 
-func genInput(r *plan.Rand) *toolInput {
+func genInput(r *plan.Rand, huge bool) *toolInput {
 	a := &alphabets[r.Intn(len(alphabets))]
 	n := []int{0, 1, 2, 3, 10, 100, 2048, 2048, 2049, 5000}[r.Intn(10)]
-	if r.Intn(3) == 0 {
+	if huge { // "any length": far beyond the real lists (> 1 MiB, > 64 Ki lines)
+		n = []int{70000, 140000, 260000}[r.Intn(3)]
+	}
+	if r.Intn(3) == 0 && !huge {
 		n = r.Range(0, 40)
 	}
 	in := &toolInput{Trailing: r.Intn(3) != 0}
@@ -483,12 +492,19 @@ func genToolPlan(seed uint64, i int) *toolPlan {
 	tp := &toolPlan{Inputs: map[string]*toolInput{}, Prestate: map[string]string{}, OrderSeed: r.Uint64()}
 	canonical := i%25 == 0
 	tp.Canonical = canonical
+	if r.Intn(2) == 0 {
+		tp.FragSeed = r.Uint64() | 1
+	}
+	hugeLang := -1
+	if i%30 == 11 {
+		hugeLang = r.Intn(ref.NumLang)
+	}
 	for l := 0; l < ref.NumLang; l++ {
 		name := ref.FileNames[l]
 		if canonical {
 			tp.Inputs[name] = canonicalInput(l)
 		} else {
-			tp.Inputs[name] = genInput(r)
+			tp.Inputs[name] = genInput(r, l == hugeLang)
 		}
 		tp.Prestate[name] = []string{"absent", "longer", "shorter", "junk", "longer"}[r.Intn(5)]
 	}
@@ -616,6 +632,12 @@ func CheckC17(e *Env) (int, error) {
 		if tp.Canonical {
 			scripts["canonical"]++
 		}
+		for _, in := range tp.Inputs {
+			if len(in.Lines) > 65536 {
+				scripts["runs_with_a_file_over_64Ki_lines"]++
+				break
+			}
+		}
 		if len(samples) < 3 && i%211 == 1 {
 			small := map[string]interface{}{"order_seed": tp.OrderSeed, "prestate": tp.Prestate}
 			for name, in := range tp.Inputs {
@@ -639,24 +661,24 @@ func CheckC17(e *Env) (int, error) {
 		fmt.Println("PROBE-ZERO C17: truncation_needed_and_happened")
 	}
 	cov := map[string]interface{}{
-		"evaluations":         runs,
-		"distinct_nontrivial": len(distinct),
-		"rule":                "a case = one run of the real update-wordlist binary (built with -tags verif, its map range rewritten to a seed-chosen order) against a simulated upstream (in-process file transport, ten generated files of letters and combining marks in 14 scripts, 0-5000 lines, blank lines, duplicates, with/without trailing newline; every 25th run the frozen canonical lists) and a seeded disk pre-state per target (absent, much longer stale file, shorter file, junk). Each output is parsed and type-checked and compared entry by entry with the non-empty input lines. Non-trivial: >= 1 target had a pre-existing file and >= 1 word is non-ASCII; distinct by digest of (inputs, pre-state, order).",
-		"exhaustive":          false,
-		"samples":             samples,
-		"runs":                runs,
-		"sim_steps_total":     tot["lists_verified"],
-		"sim_time_note":       "no clock in the tool; counted in files generated and verified",
-		"lists_verified":      tot["lists_verified"],
-		"words_verified":      tot["words_verified"],
+		"evaluations":                runs,
+		"distinct_nontrivial":        len(distinct),
+		"rule":                       "a case = one run of the real update-wordlist binary (built with -tags verif, its map range rewritten to a seed-chosen order) against a simulated upstream (in-process file transport, ten generated files of letters and combining marks in 14 scripts, 0-5000 lines and occasionally 70k-260k lines (> 1 MiB), blank lines, duplicates, with/without trailing newline; in half of the runs the response bodies arrive in seeded short reads, the last bytes possibly together with io.EOF; every 25th run the frozen canonical lists) and a seeded disk pre-state per target (absent, much longer stale file, shorter file, junk). Each output is parsed and type-checked and compared entry by entry with the non-empty input lines. Non-trivial: >= 1 target had a pre-existing file and >= 1 word is non-ASCII; distinct by digest of (inputs, pre-state, order).",
+		"exhaustive":                 false,
+		"samples":                    samples,
+		"runs":                       runs,
+		"sim_steps_total":            tot["lists_verified"],
+		"sim_time_note":              "no clock in the tool; counted in files generated and verified",
+		"lists_verified":             tot["lists_verified"],
+		"words_verified":             tot["words_verified"],
 		"canonical_lists_reproduced": tot["canonical_lists_reproduced"],
-		"faults_fired":        map[string]int{"prestate_longer": tot["prestate_longer"], "prestate_shorter": tot["prestate_shorter"], "prestate_junk": tot["prestate_junk"], "prestate_absent": tot["prestate_absent"], "fault_runs_no_verdict": tot["fault_runs_no_verdict"], "fault_runs_tool_failed": tot["fault_runs_tool_failed"]},
-		"probes":              map[string]int{"truncation_needed_and_happened": tot["truncation_needed_and_happened"], "distinct_fetch_orders": len(firstLang)},
-		"map_ranges_rewritten": rep.MapRanges,
-		"uncontrolled_ranges": rep.OtherRanges,
-		"schedule_space_note": "10! fetch orders x 5^10 pre-states: real but shallow; most of the strength is the workload through the simulated upstream",
-		"raw_violations":      len(viols),
-		"outcome_digest":      od.String(),
+		"faults_fired":               map[string]int{"prestate_longer": tot["prestate_longer"], "prestate_shorter": tot["prestate_shorter"], "prestate_junk": tot["prestate_junk"], "prestate_absent": tot["prestate_absent"], "fault_runs_no_verdict": tot["fault_runs_no_verdict"], "fault_runs_tool_failed": tot["fault_runs_tool_failed"]},
+		"probes":                     map[string]int{"truncation_needed_and_happened": tot["truncation_needed_and_happened"], "distinct_fetch_orders": len(firstLang), "runs_with_fragmented_bodies": tot["runs_with_fragmented_bodies"], "runs_with_a_file_over_64Ki_lines": scripts["runs_with_a_file_over_64Ki_lines"], "canonical_runs": scripts["canonical"]},
+		"map_ranges_rewritten":       rep.MapRanges,
+		"uncontrolled_ranges":        rep.OtherRanges,
+		"schedule_space_note":        "10! fetch orders x 5^10 pre-states: real but shallow; most of the strength is the workload through the simulated upstream",
+		"raw_violations":             len(viols),
+		"outcome_digest":             od.String(),
 	}
 	if err := e.WriteEvidence("C17", "exploration", cov, []string{
 		"go/parser, go/types and strconv.Unquote decide what a generated file 'contains'",
